@@ -166,6 +166,9 @@ func (e Engine) Pool() []Op {
 	for _, o := range featureOps() {
 		add(o)
 	}
+	for _, o := range poisonOps() {
+		add(o)
+	}
 	// a schedule may run the cheaper "spec" stage of any specification operation: close the pool under that
 	for _, o := range append([]Op(nil), pool...) {
 		if o.Kind == "spec_lalr" || o.Kind == "spec_dfa" {
@@ -276,6 +279,57 @@ func polarityOps() []Op {
 	}
 	return out
 }
+
+// Rejected inputs (several of them with two problems at once, so that one error may be reported and
+// another left behind) and accepted inputs of the same kind: a rejected input must not poison the
+// next accepted one, sequentially or on a neighbouring goroutine.
+var badPatterns = []string{"[9-0", "a{4,2}(", "[z-a][", "x{3,1}|(", "(", "[z-a]", "a{3,1}", "[[:nope:]]x", `\p{Nope}`, "a)", "[a", `\xZZ`}
+var goodPatterns = []string{"[a-z]+", "[0-9]+", "a{2,3}", "(x|y)*z", `\d+`, "[^a-c]x", "a.b", `\w+\s`}
+var badSpecs = []string{
+	"grammar b1;\nTK = /[z-a]/;\nstart = TK;\n",
+	"grammar b2;\nAA = /a{3,1}(/;\nstart = AA;\n",
+	"grammar b3;\nAA = /[a-z]+/;\nBB = /[a-c]+/;\nstart = AA BB UNDEF;\n",
+	"grammar b4;\nstart = = ;\n",
+	"grammar b5;\nNUM = /[0-9]+/;\nNUM = /[0-9]/;\nstart = NUM other;\n",
+	"grammar b6;\nAA = $NOPE;\nstart = AA [ \"x\" \"y\" ] (\n",
+}
+var goodSpecs = []string{
+	"grammar g1;\nID = /[a-z]+/;\nstart = ID [ \",\" ID ] ( \"x\" \"y\" );\n",
+	"grammar g2;\nNUM = /[0-9]+/;\nstart = NUM { \"+\" NUM };\n",
+	"grammar g3;\nSTR = $STRING;\nstart = STR | \"nil\";\n",
+	"grammar g4;\nAA = /ab*/;\nstart = {{ AA \";\" }};\n",
+}
+
+// poisonList is the i-th fixed sequence rejected, accepted, rejected, accepted, ... of one kind.
+func poisonList(i int) []Op {
+	kind := []string{"nfa", "regex_dfa", "spec_dfa", "nfa", "spec", "regex_dfa"}[i%6]
+	bad, good := badPatterns, goodPatterns
+	if kind == "spec_dfa" || kind == "spec" {
+		bad, good = badSpecs, goodSpecs
+	}
+	var out []Op
+	for j := 0; j < 3; j++ {
+		out = append(out, Op{Kind: kind, Text: bad[(i+j*5)%len(bad)]}, Op{Kind: kind, Text: good[(i*3+j)%len(good)]})
+	}
+	return out
+}
+
+func poisonOps() []Op {
+	var out []Op
+	for _, k := range []string{"nfa", "regex_dfa"} {
+		for _, p := range append(append([]string{}, badPatterns...), goodPatterns...) {
+			out = append(out, Op{Kind: k, Text: p})
+		}
+	}
+	for _, k := range []string{"spec", "spec_dfa"} {
+		for _, p := range append(append([]string{}, badSpecs...), goodSpecs...) {
+			out = append(out, Op{Kind: k, Text: p})
+		}
+	}
+	return out
+}
+
+const nPoison = 18
 
 // featureOps is a list of operations that between them use every notation once: what is built
 // lazily for a notation is built by the first operation of a process that uses it.
@@ -648,6 +702,13 @@ func (e Engine) Plan(tier string, seed uint64) []simrt.Case {
 	for i := 0; i < nS; i++ {
 		cs = append(cs, simrt.Case{Index: len(cs), Seed: simrt.Mix(seed, 17, 2, uint64(i)), Args: []int{kPairs}})
 	}
+	// rejected / accepted alternations of one kind: as a history, and split over two workers
+	for i := 0; i < nPoison; i++ {
+		cs = append(cs, simrt.Case{Index: len(cs), Seed: simrt.Mix(seed, 17, 5, uint64(i)), Args: []int{kHistory, -(i + 1)}, Label: "poison-history"})
+	}
+	for i := 0; i < nPoison; i++ {
+		cs = append(cs, simrt.Case{Index: len(cs), Seed: simrt.Mix(seed, 17, 6, uint64(i)), Args: []int{kFresh, i, 1}, Label: "poison-schedule"})
+	}
 	// one history per polarity pair (every pair in every run, both members in a drawn order)
 	for i := range polarityPairs {
 		cs = append(cs, simrt.Case{Index: len(cs), Seed: simrt.Mix(seed, 17, 3, uint64(i)), Args: []int{kHistory, i + 1}, Label: "polarity-pair"})
@@ -905,8 +966,18 @@ func (e Engine) Run(t *simrt.Tape, c simrt.Case, x *simrt.Ctx) *simrt.Result {
 				cleanDir(o)
 			}
 		}()
+		var fixed []Op
+		if len(c.Args) > 1 && c.Args[1] < 0 {
+			fixed = poisonList(-c.Args[1] - 1)
+			n = len(fixed)
+		}
 		for i := 0; i < n; i++ {
-			o := e.withDir(pool[t.Draw(len(pool))])
+			var o Op
+			if fixed != nil {
+				o = e.withDir(fixed[i])
+			} else {
+				o = e.withDir(pool[t.Draw(len(pool))])
+			}
 			r := ExecRaw(o)
 			ops, raws = append(ops, o), append(raws, r)
 			got := Canon(r)
@@ -940,7 +1011,13 @@ func (e Engine) Run(t *simrt.Tape, c simrt.Case, x *simrt.Ctx) *simrt.Result {
 			nw = 2 + t.Draw(2)
 		}
 		var freshOp *Op
-		if c.Args[0] == kFresh {
+		var fixedLists [][]Op
+		if c.Args[0] == kFresh && len(c.Args) > 2 && c.Args[2] == 1 {
+			// worker 0: rejected, accepted, rejected; worker 1: accepted, rejected, accepted
+			pl := poisonList(c.Args[1])
+			nw = 2
+			fixedLists = [][]Op{{pl[0], pl[1], pl[2]}, {pl[3], pl[4], pl[5]}}
+		} else if c.Args[0] == kFresh {
 			nw = 2 + t.Draw(2)
 			fo := featureOps()
 			freshOp = &fo[c.Args[1]%len(fo)]
@@ -951,6 +1028,9 @@ func (e Engine) Run(t *simrt.Tape, c simrt.Case, x *simrt.Ctx) *simrt.Result {
 		var desc []string
 		for w := 0; w < nw; w++ {
 			k := 1 + t.Draw(2)
+			if fixedLists != nil {
+				k = len(fixedLists[w])
+			}
 			for j := 0; j < k; j++ {
 				o := pool[t.Draw(len(pool))]
 				if o.Kind == "spec_lalr" && t.Chance(1, 2) {
@@ -958,6 +1038,9 @@ func (e Engine) Run(t *simrt.Tape, c simrt.Case, x *simrt.Ctx) *simrt.Result {
 				}
 				if freshOp != nil {
 					o = *freshOp
+				}
+				if fixedLists != nil {
+					o = fixedLists[w][j]
 				}
 				o = e.withDir(o)
 				defer cleanDir(o)
@@ -970,7 +1053,9 @@ func (e Engine) Run(t *simrt.Tape, c simrt.Case, x *simrt.Ctx) *simrt.Result {
 		policy := t.Draw(4)
 		if c.Args[0] == kFresh {
 			policy = []int{4, 3, 0}[t.Draw(3)]
-			if k := freshOp.Kind; k == "generate" || k == "spec_lalr" || k == "spec_dfa" {
+			if freshOp == nil {
+				policy = []int{4, 3, 0}[t.Draw(3)]
+			} else if k := freshOp.Kind; k == "generate" || k == "spec_lalr" || k == "spec_dfa" {
 				policy = []int{3, 1}[t.Draw(2)] // long operations: pre-empt where shared state is touched, not at every yield
 			}
 		}
